@@ -62,7 +62,8 @@ structure LibSecpSpec (c : CurveParams) [Good c] (S : LibSecp256k1) (denP : S.Pu
   /-- `secp256k1_ecdsa_signature_normalize` -/
   normalize_ok : ∀ (sig : S.Sig), denS (S.sigNormalize sig) = ((denS sig).1, lowS c.n (denS sig).2)
   /-- `secp256k1_ecdsa_verify`: 1 exactly for a low-S signature satisfying the ECDSA equation -/
-  verify_ok : ∀ (sig : S.Sig) (pk : S.Pubkey) (z : Int), 0 ≤ z → z < 2 ^ 256 → denP pk ≠ none → OnCurve c (denP pk) →
+  verify_ok : ∀ (sig : S.Sig) (pk : S.Pubkey) (z : Int), 1 ≤ z → z < 2 ^ 256 → denP pk ≠ none → OnCurve c (denP pk) →
+    Reduced c (denP pk) →
     (S.ecdsaVerify sig (be32 z) pk = 1 ↔
       1 ≤ (denS sig).1 ∧ (denS sig).1 < c.n ∧ 1 ≤ (denS sig).2 ∧ (denS sig).2 ≤ (c.n : Int) / 2 ∧
       xModN c (zsm c ((z : ZMod c.n) * ((denS sig).2 : ZMod c.n)⁻¹) (G c) +
@@ -273,7 +274,8 @@ theorem secp_verify_eq (spec : LibSecpSpec c S denP denS) (ok : ECDSAOk c) (hp25
     rw [toBytes32_ok (by omega) hz2]
     simp only
     generalize (S.pubkeyParse S.zeroPubkey ((4 : UInt8) :: (be32 qx ++ be32 qy)) 65).2 = pk at p2
-    have hv := spec.verify_ok (S.sigNormalize sig) pk z (by omega) hz2 (by rw [p2]; simp) (by rw [p2]; exact hQ)
+    have hv := spec.verify_ok (S.sigNormalize sig) pk z hz1 hz2 (by rw [p2]; simp) (by rw [p2]; exact hQ)
+      (by rw [p2]; exact ⟨x0, x1, y0, y1⟩)
     rw [spec.normalize_ok sig, pc2, p2] at hv
     simp only at hv
     congr 1
